@@ -37,6 +37,21 @@ def guards():
 
     def add(name, module_cfg, expect):
         G.append((name, module_cfg, expect))
+    # session 4: refinement ratios as data, descriptors as a bounded resource
+    rf = dict(ResolutionRule='"none"', IndexRule='"own-dx"', MaxJumps=3, N0s="{4, 5}")
+    rinv = ["HeaderWellFormed", "AcceptsWellFormed", "PointIndexRight"]
+    add("Refine: the code's rules", ("MC_Refine", {"INIT": "Init", "NEXT": "Next", "CONSTANTS": rf, "INVARIANTS": rinv}), None)
+    add("Refine: product rule accepted", ("MC_Refine", {"INIT": "Init", "NEXT": "Next", "CONSTANTS": dict(rf, ResolutionRule='"product"'), "INVARIANTS": rinv}), None)
+    add("Refine: resolution ratio**level", ("MC_Refine", {"INIT": "Init", "NEXT": "Next", "CONSTANTS": dict(rf, ResolutionRule='"power-of-last"'), "INVARIANTS": rinv}),
+        "AcceptsWellFormed")
+    add("Refine: index from level-0 cells * 2**level", ("MC_Refine", {"INIT": "Init", "NEXT": "Next", "CONSTANTS": dict(rf, IndexRule='"pow2-of-level0"'), "INVARIANTS": rinv}),
+        "PointIndexRight")
+    ds = dict(NBoxes=6, Limit=3, HandlePolicy='"per-file"', OnError='"propagate"')
+    dinv = ["AllOrError", "BoundedHandles", "Succeeds"]
+    add("Descriptors: one handle per file", ("Descriptors", {"SPECIFICATION": "Spec", "CONSTANTS": ds, "INVARIANTS": dinv, "PROPERTIES": ["Terminates"]}), None)
+    add("Descriptors: one handle per box", ("Descriptors", {"SPECIFICATION": "Spec", "CONSTANTS": dict(ds, HandlePolicy='"per-box"'), "INVARIANTS": dinv}), "BoundedHandles")
+    add("Descriptors: per box, error taken for end of file", ("Descriptors", {"SPECIFICATION": "Spec", "CONSTANTS": dict(ds, HandlePolicy='"per-box"', OnError='"end-of-file"'),
+                                                                         "INVARIANTS": ["AllOrError"]}), "AllOrError")
     r01 = dict(MaxLev=1, MaxBox=2, MaxFile=2, FMode='"all"', BMode='"few"', Mode='"read"', W=2,
                PostIndex='"step"', NegField='"normalise"', NpIntBox='"int"')
     N3 = {"Names": '<<"a","b","c">>'}
@@ -197,6 +212,17 @@ def binding():
         out.append(("OpTrace rejects a wrong min/max entry", corrupted(mm)[:1] == ["min-max-rows"]))
         out.append(("OpTrace rejects a modified source", "input-modified" in corrupted(src_changed)))
         out.append(("OpTrace rejects a dropped field", corrupted(lambda ln: ln["R"]["fields"].pop())[:1] == ["fields"]))
+        # CoverTrace: recorded covering grids are accepted; one corrupted pixel / grid level / row is rejected with its clause
+        from harness import covertrace
+        cl = [covertrace.record(chk, 4000 + k, "plate", k + 1) for k in range(4)]
+        out.append(("CoverTrace accepts recorded flattenings", covertrace.validate(chk, cl, "selftest") == []))
+        c2 = copy.deepcopy(cl)
+        c2[0]["grid"][0][0] = [0, 1, 1] if c2[0]["grid"][0][0] != [0, 1, 1] else [0, 0, 0]
+        c2[1]["glev"][-1][-1] += 1
+        c2[2]["grid"] = c2[2]["grid"][:-1]
+        got = sorted(covertrace.validate(chk, c2, "selftest"))
+        out.append(("CoverTrace rejects a wrong pixel, a wrong grid level, a missing row",
+                    got == [(1, "pixel-is-not-the-covering-cell"), (2, "grid-level-is-not-the-covering-level"), (3, "grid-shape")]))
     finally:
         chk.cleanup()
     return out
